@@ -48,6 +48,7 @@ func (g *generator) addImportFor(pkgPath string) (alias string) {
 
 	g.imports[pkgPath] = alias
 	g.usedAliases[alias] = true
+	verifImport(pkgPath, alias)
 	return alias
 }
 
